@@ -14,7 +14,7 @@ from kernpy.core import tokens as tk
 from kernpy.core.importer import Importer
 
 META = {
-    'outside': ['histories longer than 3 (quick) / 4 (thorough) tokens on one spine importer; more than 8 damaged cells per document',
+    'outside': ['the exported form of an EMPTY malformed cell (kernpy writes a null placeholder; an empty field is not representable in a Humdrum line)', 'histories longer than 3 (quick) / 4 (thorough) tokens on one spine importer; more than 8 damaged cells per document',
                 'malformed text that starts with * ! or = in column 0 changing the line class (Humdrum syntax), cells containing TAB / newline'],
     'assumptions': [],
 }
@@ -74,7 +74,7 @@ DOCS = (
     [['**kern', '**kern', '**dynam'], ['4c', '4e', 'f'], [], [], ['4d', '4f', 'p'], ['*^', '*', '*'], ['4g', '4a', '4b', '.'], ['*v', '*v', '*', '*'], ['2cc', '2dd', 'mf'], ['*-', '*-', '*-']],
     [['!!!COM: x'], ['**kern'], ['4c'], ['4d'], ['4e'], ['4f'], ['*-']],
 )
-KERN_BAD = ('4zz', '4c§', '%%', '4c 4', 'c4z')     # malformed in a **kern spine (raise on a fresh importer on the pinned tree)
+KERN_BAD = ('4zz', '4c§', '%%', '4c 4', 'c4z', '')     # '' = a cell truncated to nothing (two adjacent TABs)     # malformed in a **kern spine (raise on a fresh importer on the pinned tree)
 
 
 @native
@@ -120,7 +120,9 @@ def _b_body(di, mask, bad):
     for k, (r, c) in enumerate(cells_):
         if mask >> k & 1:
             txt = KERN_BAD[(bad + k) % len(KERN_BAD)]
-            if _fresh_outcome(txt)[0] != 'raises':
+            if txt == '' and len(rows[r]) == 1:
+                continue                   # an empty cell on a one-column line is a blank line, not a cell
+            if txt != '' and _fresh_outcome(txt)[0] != 'raises':
                 continue                   # the current parser accepts it: not a malformed cell for this run
             rows[r][c] = txt
             damaged.append((r, c, txt))
@@ -157,7 +159,8 @@ def _b_body(di, mask, bad):
         r = kept[gi]
         for c, (x, y) in enumerate(zip(g, cg)):
             if (r, c) in dmg:
-                check(x == rows[r][c], f'malformed cell {rows[r][c]!r} exported as {x!r}')
+                # an EMPTY malformed cell cannot be written verbatim into a TAB-separated line: a null placeholder is accepted for it
+                check(x == rows[r][c] or (rows[r][c] == '' and x in ('.', '')), f'malformed cell {rows[r][c]!r} exported as {x!r}')
             else:
                 check(x == y, f'cell at line {r + 1} col {c} exported as {x!r}, without the damage {y!r}')
     return True
@@ -245,7 +248,7 @@ OBLIGATIONS = [
     Ob(id='C12.b', fn=ob_b, title='documents x damage masks: one error per malformed cell with its line, other tokens untouched, verbatim export',
        shard_of=lambda d, mask, bad: mask, shards={'quick': 8, 'thorough': 16}, budget_s={'quick': 150, 'thorough': 1200},
        witnesses=[{'d': 0, 'mask': 5, 'bad': 0}], min_confirmed=300, enumerated='document, damage mask over the **kern data cells, malformed-kind rotation',
-       bounds={'quick': '3 documents (blank lines, global comments, split/join, non-kern spines) x every subset of the first 6 data cells x 5 malformed kinds',
+       bounds={'quick': '3 documents (blank lines, global comments, split/join, non-kern spines) x every subset of the first 6 data cells x 6 malformed kinds (incl. the empty cell)',
                'thorough': 'first 8 data cells'}),
     Ob(id='C12.b2', fn=ob_b2, title='stub tier: ANY rejected text is wrapped once, reported with its line, exported verbatim',
        budget_s={'quick': 150, 'thorough': 1200}, shard_of=lambda s, blank, col, second: blank + 3 * col, shards={'quick': 6, 'thorough': 6},
